@@ -7,44 +7,21 @@ import os
 
 HERE = os.path.dirname(os.path.dirname(os.path.abspath(__file__)))
 
-CLAIMED = {
-    "C01": dict(
-        technique="static footprint analysis: members read by __hash__ vs "
-                  "members compared on every true path of __eq__ (libTooling "
-                  "facts + structured-path enumeration)",
-        text="Decides, for every concrete class deriving Basic (all library "
-             "TUs, resolved through CRTP bases), that __hash__ is a function "
-             "of the equivalence class of __eq__: type test on every true "
-             "path, hashed members ⊆ compared members on every true path, "
-             "zero-normalising float kernel, commutative folding of unordered "
-             "containers, hash cache written only by Basic::hash(). One run "
-             "covers all pairs of objects by induction on structure. Does "
-             "not decide hash quality or that canonicalisation makes equal "
-             "values structurally equal (C03/C04).",
-        note="Trusted: clang 14 AST; the table of equality-respecting "
-             "library calls (eq, unified_eq, ==); accessor inlining. Loops "
-             "inside __eq__ are assumed to perform their comparisons.",
-        ref="§2 C01"),
-    "C02": dict(
-        technique="static value-set analysis of compare() returns, "
-                  "compare/__eq__ footprint agreement, who-may-call rule for "
-                  "the same-type-only virtual compare, shape check of "
-                  "RCPBasicKeyLess and Basic::__cmp__",
-        text="Decides over every compare/__cmp__/unified_compare definition "
-             "and every concrete Basic class: all returns confined to "
-             "{-1,0,1} (fixpoint over callees, external three-way results "
-             "rejected); compare reads every member __eq__ distinguishes and "
-             "vice versa on every true path (0 iff equal); NaN handling where "
-             "floats are ordered; compare() only called under equal dynamic "
-             "types (type-code branch of __cmp__); RCPBasicKeyLess is hash "
-             "order, then eq, then __cmp__ == -1. Transitivity within a class "
-             "is inherited from lexicographic composition and not proved per "
-             "member order.",
-        note="Trusted: clang 14 AST; operator< / == of std::string, "
-             "integer_class, rational_class are consistent total orders; "
-             "guards are not invalidated by intervening assignments.",
-        ref="§2 C02"),
-}
+import importlib
+import sys
+sys.path.insert(0, HERE)
+
+
+def claimed():
+    out = {}
+    for fn in sorted(os.listdir(os.path.join(HERE, "rules"))):
+        if not (fn.startswith("c") and fn.endswith(".py")):
+            continue
+        mod = importlib.import_module("rules." + fn[:-3])
+        if hasattr(mod, "MANIFEST"):
+            out[fn[:-3].upper()] = mod.MANIFEST
+    return out
+
 
 NA = {
     "C07": "value preservation of add/mul/pow rewrites at all complex points: quantifies over numeric values and branch cuts; no structural clause is a necessary condition.",
@@ -83,6 +60,7 @@ def main():
     props = [json.loads(l) for l in open(os.path.join(HERE,
                                                       "properties.jsonl"))]
     ids = [p["id"] for p in props]
+    CLAIMED = claimed()
     checks = []
     na = []
     for pid in ids:
